@@ -195,13 +195,22 @@ def dupFold : List Name → Bool
   | [] => false
   | n :: r => r.any (fun m => decide (fold m = fold n)) || dupFold r
 
-/-- `define_class`; `none` = MetaModelException: the name is already defined (in any letter case), or two of the
-    attribute names coincide apart from letter case — in both cases nothing is defined -/
+/-- `_is_reserved(name)`: `len(name) > 4 and name.startswith('__') and name.endswith('__')` — the names python
+    reserves for itself (`__class__`, `__dict__`, `__init__`, …) -/
+def isReserved (n : Name) : Bool :=
+  decide (n.length > 4) && (['_', '_'] : Name).isPrefixOf n && (['_', '_'] : Name).isSuffixOf n
+
+/-- what the attribute loop of `define_class` refuses: a reserved name, or two names that coincide after upper-casing
+    (each name is tested for both in turn; either raises MetaModelException, so the order does not show) -/
+def badNames (l : List Name) : Bool := l.any isReserved || dupFold l
+
+/-- `define_class`; `none` = MetaModelException: the name is already defined (in any letter case), an attribute name is
+    reserved by python, or two of the attribute names coincide apart from letter case — in all cases nothing is defined -/
 def defineClass (cs : Classes) (kind : Name) (attrs : List (Name × Name)) : Option Classes :=
   match clsGet cs (fold kind) with
   | some _ => none
   | none =>
-    if dupFold (attrs.map (·.1)) then none
+    if badNames (attrs.map (·.1)) then none
     else some (cs ++ [(fold kind, { kind := kind, attrs := attrs, refs := [] })])
 
 /-- any sequence of `define_class` calls; rejected ones leave the table unchanged -/
@@ -248,7 +257,8 @@ def clsSet : Classes → Name → Cls → Classes
 def defineAssoc (w : World) (srcKind srcKey tgtKind tgtKey : Name) : World × Option Exc :=
   match findMetaclass w.classes srcKind, findMetaclass w.classes tgtKind with
   | some sc, some tc =>
-    if fold tgtKey ∈ tc.names.map fold then
+    if isReserved srcKey then (w, some .metaModelE)      -- a reserved source key is refused before anything else
+    else if fold tgtKey ∈ tc.names.map fold then
       ({ w with classes := clsSet w.classes (fold srcKind) { sc with refs := sc.refs ++ [srcKey] }
                 assoc := some { srcKind := fold srcKind, srcKey := srcKey, tgtKind := fold tgtKind, tgtKey := tgtKey } },
        none)
